@@ -1,6 +1,6 @@
 use std::{
     alloc::Layout,
-    collections::{BTreeMap, BTreeSet},
+    collections::{BTreeMap, BTreeSet, HashSet},
     mem::size_of,
     ptr::NonNull,
 };
@@ -18,6 +18,9 @@ pub(crate) struct TxFreelist {
     pub(crate) inner: Freelist,
     pub(crate) pages: BTreeMap<u64, (NonNull<u8>, usize)>,
     pub(crate) arena: Bump,
+    // Pages this transaction has already freed. Deleting a nested bucket and then
+    // one of its ancestors walks over the same pages twice.
+    freed: HashSet<PageID>,
 }
 
 impl<'a> TxFreelist {
@@ -27,6 +30,7 @@ impl<'a> TxFreelist {
             inner,
             pages: BTreeMap::new(),
             arena: Bump::new(),
+            freed: HashSet::new(),
         }
     }
 
@@ -34,7 +38,9 @@ impl<'a> TxFreelist {
         debug_assert!(num_pages > 0, "cannot free zero pages");
         vpoint!("fl:free", tx_id = self.meta.tx_id, page = page_id, n = num_pages);
         for id in page_id..(page_id + num_pages) {
-            self.inner.free(self.meta.tx_id, id);
+            if self.freed.insert(id) {
+                self.inner.free(self.meta.tx_id, id);
+            }
         }
     }
 
